@@ -38,9 +38,9 @@ def gen_config(rng, color_format, allow_transform=True, reuse=None):
     return cfg
 
 
-def gen_sources(rng, n=None, solid_only=False, allow_groups=True, allow_special=True, first_cp=0x1F600, var_opaque=False, stress=False):
+def gen_sources(rng, n=None, solid_only=False, allow_groups=True, allow_special=True, first_cp=0x1F600, var_opaque=False, stress=False, share=True):
     n = n or rng.randint(1, 5)
-    pool = []
+    pool = [] if share else None
     docs, srcs = [], []
     for i in range(n):
         doc = svggen.gen_doc(rng, pool, solid_only=solid_only, allow_groups=allow_groups, allow_special=allow_special, var_opaque=var_opaque, stress=stress)
